@@ -82,7 +82,7 @@ func vhSameSession(x, y *vhSnapshot) bool {
 		x.ourTag == y.ourTag, x.theirTag == y.theirTag, x.ssid == y.ssid,
 		x.smpState == y.smpState, x.fragIdx == y.fragIdx, x.fragLen == y.fragLen,
 		x.nOldMAC == y.nOldMAC, x.resendN == y.resendN, x.mayRetransmit == y.mayRetransmit,
-		x.version == y.version, x.whitespace == y.whitespace, x.nInjected == y.nInjected,
+		x.version == y.version, x.whitespace == y.whitespace,
 	}
 	ok := vAll(conds...)
 	if len(x.theirCur) == len(y.theirCur) {
